@@ -3,7 +3,7 @@ from lib import pipeline
 from lib.props.c08 import parse_view, reach, succ
 
 LEVEL = "proof"
-MODEL_FILES = ["Model/View.v", "Model/Traversal.v", "Model/AlgoBasic.v", "Model/UnionFindM.v"]
+MODEL_FILES = ["Model/View.v", "Model/Traversal.v", "Model/AlgoBasic.v", "Model/UnionFindM.v", "Model/CondenseM.v", "Model/AlgoIO.v"]
 THEOREMS = []
 STREAMS = [("C09", 3000, 120000)]
 SHARD = 5000
